@@ -252,7 +252,8 @@ fn generate(tier: &str, seed: u64, emit: &mut dyn FnMut(Case)) {
         let nreq = ops.iter().filter(|o| o.starts_with('C') || o.starts_with('U')).count();
         Case { fields: vec![names.join(","), join(";", &ops)], tags: vec![("kind".into(), kind.into()), ("len".into(), (ops.len().min(40) / 5 * 5).to_string()), ("restores".into(), ops.iter().filter(|o| *o == "R").count().min(4).to_string()), ("requests".into(), nreq.min(9).to_string())], nontrivial: nt }
     };
-    let a = hex(b"a"); let b = hex(b"bee"); let c = hex(b"c-3");
+    // layer names that share a prefix up to a dot: path arithmetic on `<name>.toml` / `<name>.sbom.*` must not confuse them
+    let a = hex(b"a"); let b = hex(b"a.tools"); let c = hex(b"a.sbom");
     // 1. exhaustive: all histories of length <= 2 (quick) / 3 (thorough) over one name
     let alpha = alphabet(&a);
     for x in &alpha { emit(mk(&[&a], vec![x.clone()], "exh1")); }
@@ -262,6 +263,11 @@ fn generate(tier: &str, seed: u64, emit: &mut dyn FnMut(Case)) {
     for t in ["11", "10", "01", "00"] { for second in alphabet(&a).iter().filter(|o| o.starts_with('C') || o.starts_with('U')) {
         let ops = vec![format!("C.{a}.{t}.G.d1.k2"), format!("M.{a}.4_9"), format!("E.{a}.B/p/50415448/2f78"), format!("S.{a}.0=63+2=73"), format!("X.{a}.{}=2321", hex(b"p1")), format!("F.{a}.{}=64", hex(b"data")), "R".into(), second.clone(), format!("S.{a}.1=6e"), "R".into(), format!("U.{a}.11")];
         emit(mk(&[&a], ops, "directed"));
+    } }
+    // 2b. directed: two layers whose names differ by a dotted suffix; each request/delete of one must leave the other alone
+    for (x, y) in [(&a, &b), (&b, &a), (&a, &c), (&c, &a), (&b, &c)] { for second in ["U.{}.11", "C.{}.11.G.d1.d3", "C.{}.11.V.d4.k2", "C.{}.11.G.d1.k2"] {
+        let ops = vec![format!("C.{x}.11.G.d1.k2"), format!("M.{x}.4_9"), format!("S.{x}.0=63"), format!("C.{y}.11.G.d1.k2"), format!("M.{y}.5_~"), format!("S.{y}.1=64+2=65"), "R".into(), second.replace("{}", y), format!("C.{x}.11.G.d1.k2"), "R".into(), second.replace("{}", x), format!("C.{y}.11.V.d7.k1")];
+        emit(mk(&[x.as_str(), y.as_str()], ops, "directed-dotted"));
     } }
     // 3. sampled histories over three names
     let samples = if tier == "thorough" { 50_000 } else { 3_000 };
